@@ -389,7 +389,8 @@ Inductive event :=
 | EReset (i : nat)                         (* Step.reset_for_rerun *)
 | EComplete (i k : nat) (o : outcome)      (* the k-th executing command of step i ended: mark_completed *)
 | ECheckDone (i : nat) (c : chk)           (* try_skip_job / validate_dynamic_job verdict *)
-| EDefine (p : nat) (l g : N) (cl : claims) (nd : N)   (* Workflow.define_step by creator p *)
+| EDefine (p : nat) (l g : N) (cl : claims) (nd : N) (eo : bool)   (* Workflow.define_step by creator p; eo (oracle):
+     the env_overrides of the declaration differ from the stored ones (read by Step.after_recycle only) *)
 | EHold (i k : nat) | ERelease (i k : nat) (* hold_dispatch / release_dispatch from command k of step i *)
 | EMarkPending (i : nat).                  (* Workflow.mark_step_pending *)
 
@@ -426,23 +427,60 @@ Definition lose_product (d : list row) (x : row) : option (list row) :=
 (* A job of the step is in flight: RUNNING (command executing) or CHECKING (hash check under way). *)
 Definition in_flight (x : row) : bool := sstate_eqb (st x) Running || sstate_eqb (st x) Checking.
 
-(* Trellis.try_recycle + Step.after_recycle (generated flags say what it overwrites).
-   keep = the repaired shape (generated recycle_keeps_inflight): a row whose job is in flight keeps its
-   _holding and its step_resource rows. *)
-Definition recycle_full_row (keep : bool) (cl : claims) (nd : N) (y : row) : row :=
-  let k := keep && in_flight y in
-  let y1 := if recycle_zeroes_holding && negb k then set_holding 0 y else y in
-  let y2 := if recycle_failed_to_pending && sstate_eqb (st y1) Failed then set_state_tr Pending y1 else y1 in
-  let y3 := if recycle_replaces_claims && negb k then set_rclaims cl y2 else y2 in
-  set_meta (false, nd, false) y3.
+(* Workflow.mark_step_pending on a row: calls on RUNNING and CHECKING steps are ignored (pinned by the
+   translator), otherwise Step.set_state(PENDING) with the trigger. *)
+Definition mark_pending_row (y : row) : row := if in_flight y then y else set_state_tr Pending y.
 
-Definition recycle_full (keep : bool) (d : list row) (i p : nat) (att : bool) (x : row) (cl : claims) (nd : N) : option (list row) :=
+(* Interpreter of Step.after_recycle as translated statement by statement (gen.GenLimits.after_recycle_ops).
+   k = the local `in_flight` of the repaired shape; eo = the env_overrides test (oracle input). *)
+Definition rcond_holds (c : rcond) (k eo : bool) (y : row) : bool :=
+  match c with
+  | CAlways => true
+  | CFailed => sstate_eqb (st y) Failed
+  | CEnvDiffers => eo
+  | CInFlight => k
+  | CNotInFlight => negb k
+  end.
+
+Definition ract_apply (a : ract) (cl : claims) (y : row) : row :=
+  match a with
+  | AUpdate z => if z then set_holding 0 y else y      (* need / shell are outside the model *)
+  | AMarkPending => mark_pending_row y
+  | ASetClaims => set_rclaims cl y
+  | ANone => y
+  end.
+
+Definition rop_apply (k eo : bool) (cl : claims) (y : row) (op : rcond * ract) : row :=
+  if rcond_holds (fst op) k eo y then ract_apply (snd op) cl y else y.
+
+Definition run_ops (k eo : bool) (cl : claims) (ops : list (rcond * ract)) (y : row) : row :=
+  fold_left (rop_apply k eo cl) ops y.
+
+(* every write of _holding / step_resource is under `not in_flight`: what the translator calls the
+   repaired shape (recycle_keeps_inflight); proofs.LimitsProofs.guarded_ops_frame: such a list leaves a
+   row in flight exactly as it is *)
+Definition ops_guarded (ops : list (rcond * ract)) : bool :=
+  forallb (fun op => match snd op with
+                     | AUpdate true | ASetClaims => match fst op with CNotInFlight => true | _ => false end
+                     | _ => true
+                     end) ops.
+
+(* Trellis.try_recycle + Step.after_recycle.
+   keep = the repaired shape (generated recycle_keeps_inflight): a row whose job is in flight is left as it
+   is; otherwise the statements run with `in_flight` false (for a row that is not in flight that is what
+   the local variable holds; for a row in flight under keep = false it is the unrepaired code, whatever
+   shape the source has today, so that the theorems about both shapes are independent of the source). *)
+Definition recycle_full_row (keep : bool) (cl : claims) (nd : N) (eo : bool) (y : row) : row :=
+  set_meta (false, nd, false)
+    (if keep && in_flight y then y else run_ops false eo cl after_recycle_ops y).
+
+Definition recycle_full (keep : bool) (d : list row) (i p : nat) (att : bool) (x : row) (cl : claims) (nd : N) (eo : bool) : option (list row) :=
   match lose_product d x with
   | None => None
   | Some d0 =>
       let d1 := upd d0 i (fun y => set_attached att (set_creator (Some p) y)) in
       let d2 := set_attached_in (descendants (length d1) d1 [i]) att d1 in
-      Some (upd d2 i (recycle_full_row keep cl nd))
+      Some (upd d2 i (recycle_full_row keep cl nd eo))
   end.
 
 (* Trellis.create on a detached node + Step.initialize_row + set_resources.
@@ -509,7 +547,7 @@ Definition step_gen (keep rej : bool) (s : sys) (e : event) : option sys :=
             end
           else None
       end
-  | EDefine p l g cl nd =>
+  | EDefine p l g cl nd eo =>
       match nth_error d p with
       | None => None
       | Some px =>
@@ -523,7 +561,7 @@ Definition step_gen (keep rej : bool) (s : sys) (e : event) : option sys :=
                   if attached x then None
                   else if Nat.eqb i p then None
                   else if rej && in_flight x then None
-                  else match (if outs_match (sig x) g then recycle_full keep d i p (attached px) x cl nd
+                  else match (if outs_match (sig x) g then recycle_full keep d i p (attached px) x cl nd eo
                               else recycle_partial keep d i p (attached px) x g cl nd) with
                        | None => None
                        | Some d' => Some (with_db s d')
@@ -581,7 +619,7 @@ Definition run := run_gen recycle_keeps_inflight define_rejects_inflight.
    longer CHECKING, which ECheckDone does not describe. *)
 Definition quiet_event (s : sys) (e : event) : Prop :=
   match e with
-  | EDefine p l g cl nd =>
+  | EDefine p l g cl nd eo =>
       match find_label l (db s) with
       | Some i => match nth_error (db s) i with Some x => cmds x = [] /\ st x <> Checking | None => True end
       | None => True
@@ -608,7 +646,7 @@ Definition benign_redeclare (x : row) (g : N) (cl : claims) : Prop :=
 
 Definition calm_event (s : sys) (e : event) : Prop :=
   match e with
-  | EDefine p l g cl nd =>
+  | EDefine p l g cl nd eo =>
       match find_label l (db s) with
       | Some i => match nth_error (db s) i with
                   | Some x => (cmds x = [] /\ st x <> Checking) \/ benign_redeclare x g cl
